@@ -589,6 +589,19 @@ pub fn mutate(n: usize) -> Value {
     let n_doc_seeds = 7;
     let mut bad = vec![];
     let mut counts = [0usize; 3];
+    // envelope encodings with extreme numbers in their length fields (crafted, not random)
+    for b in crate::c20::extreme_length_inputs() {
+        match offer_bytes(&ctx, &b) {
+            "value" => counts[0] += 1,
+            "error" => counts[1] += 1,
+            _ => {
+                counts[2] += 1;
+                if bad.len() < 8 {
+                    bad.push(json!({"i": "extreme_length", "hex": data_encoding::HEXLOWER.encode(&b)}));
+                }
+            }
+        }
+    }
     for i in 0..n {
         let mut b = seeds[i % seeds.len()].clone();
         let ops = rng.gen_range(1..=3);
